@@ -2,6 +2,7 @@ package polling
 
 import (
 	"bytes"
+	"errors"
 	"fmt"
 	"io"
 	"net/http"
@@ -141,13 +142,32 @@ var (
 	ok            = []byte("ok")
 )
 
+var errMaxHTTPBufferSizeExceeded = fmt.Errorf("polling: maxHTTPBufferSize (MaxBufferSize) exceeded")
+
+// Reply to a request whose body couldn't be read or decoded, and close the transport.
+func (t *ServerTransport) handleDataError(w http.ResponseWriter, err error) {
+	var maxBytesErr *http.MaxBytesError
+	if errors.As(err, &maxBytesErr) {
+		w.WriteHeader(http.StatusRequestEntityTooLarge)
+		t.close(errMaxHTTPBufferSizeExceeded)
+		return
+	}
+	w.WriteHeader(http.StatusBadRequest)
+	t.close(err)
+}
+
 func (t *ServerTransport) handleDataRequest(w http.ResponseWriter, r *http.Request) {
 	if t.maxHTTPBufferSize > 0 && r.ContentLength > t.maxHTTPBufferSize {
-		defer t.close(fmt.Errorf("polling: maxHTTPBufferSize (MaxBufferSize) exceeded"))
+		defer t.close(errMaxHTTPBufferSizeExceeded)
 		w.WriteHeader(http.StatusRequestEntityTooLarge)
 		r.Close = true
 		r.Body.Close()
 		return
+	}
+	if t.maxHTTPBufferSize > 0 {
+		// Content-Length is unknown (-1) when the body is chunked,
+		// so the number of bytes that are actually read must be limited as well.
+		r.Body = http.MaxBytesReader(w, r.Body, t.maxHTTPBufferSize)
 	}
 
 	var (
@@ -160,15 +180,13 @@ func (t *ServerTransport) handleDataRequest(w http.ResponseWriter, r *http.Reque
 	if jsonp == "" {
 		packets, err = parser.DecodePayloads(r.Body)
 		if err != nil {
-			w.WriteHeader(http.StatusBadRequest)
-			t.close(err)
+			t.handleDataError(w, err)
 			return
 		}
 	} else {
 		err = r.ParseForm()
 		if err != nil {
-			w.WriteHeader(http.StatusBadRequest)
-			t.close(err)
+			t.handleDataError(w, err)
 			return
 		}
 
